@@ -1,9 +1,9 @@
 INIT XInit
 NEXT XStep
 CONSTANTS
- DrainBug = TRUE
- LinkCode = TRUE
- DupPathBug = TRUE
+ DrainBug = FALSE
+ LinkCode = FALSE
+ DupPathBug = FALSE
  Ids <- ThoroughIds
 INVARIANTS EmitOrder XOnce
 CHECK_DEADLOCK FALSE
